@@ -252,7 +252,8 @@ FITTED = [  # (name, family for c02 builders, model factory kwargs)
     ("hourly", "hourly", {"settings": {"seed": 7}}),
     ("hourly_solar", "hourly_solar", {"settings": {"seed": 7}}),
     ("hourly_robust", "hourly", {"settings": {"seed": 7, "scaling_method": "robustscaler"}}),
-    ("hourly_bins", "hourly", {"settings": {"seed": 7, "temperature_bin": {"method": "equal_bin_width", "n_bins": 5, "include_edge_bins": False}}}),
+    ("hourly_bins", "hourly", {"settings": {"seed": 7, "temperature_bin": {"method": "equal_bin_width", "n_bins": 5, "bin_width": None, "include_edge_bins": False,
+                                                                     "edge_bin_rate": None, "edge_bin_percent": None}}}),
     ("hourly_poorfit", "hourly", {"settings": {"seed": 7, "cvrmse_threshold": 1e-6, "pnrmse_threshold": 1e-6}}),
     ("caltrack", "caltrack", {}),
 ]
@@ -460,7 +461,7 @@ def run_case(case):
 def cases_B(tier):
     names = [f[0] for f in FITTED]
     if tier == "quick":
-        names = ["daily_current", "daily_legacy", "daily_poorfit", "billing", "hourly", "hourly_solar", "hourly_robust", "caltrack"]
+        names = ["daily_current", "daily_legacy", "daily_poorfit", "billing", "hourly", "hourly_solar", "hourly_robust", "hourly_bins", "caltrack"]
     out = [{"part": "B", "fit": n, "tier": tier, "depth": 3 if tier == "thorough" else 2} for n in names]
     out += [{"part": "R", "fit": f, "tier": tier} for f in (("daily", "billing", "hourly") if tier == "quick" else
                                                                ("daily", "billing", "hourly", "hourly_solar", "caltrack"))]
